@@ -6,7 +6,7 @@
     regenerated definition no longer unfolds to the model's and this file - hence Props/C03.vo - stops compiling.
     The [kernel_] lemmas restate the partition / dispatch theorems about the generated definitions themselves. *)
 From Coq Require Import Sorted.
-From PV Require Import Lib.Common Model.C03_LMat Proofs.C03_LMat Gen.C03_Kernel.
+From PV Require Import Lib.Common Model.C03_LMat Model.C03_IndexForm Proofs.C03_LMat Gen.C03_Kernel.
 Local Open Scope Z_scope.
 
 (** * get_axis (core/util/array.py): every axis-generic method starts with it *)
@@ -137,25 +137,68 @@ Lemma kernel_eff_lab c k v j :
 Proof. repeat constructor; apply eff_lab_kernel; reflexivity. Qed.
 
 (** * the scalar-index wrap of insert_<kind> / incorp_<kind> *)
-Definition wraps (f : objarg -> objarg) : Prop :=
-  (forall i, f (OInt i) = OList [i]) /\ (forall o, (forall i, o <> OInt i) -> f o = o).
+(** the generated statement `if <test>: obj = [obj]` turns every scalar form of an index (Python int, numpy integer scalar,
+    0-d integer array) into the one-element list and leaves every other form (slice, list, tuple, range, 1-d array, mask)
+    as it is - in particular its test fires on no form whose wrapping would not be an index *)
+Definition wraps (g : bool -> bool -> bool -> bool -> Z -> objarg -> option objarg) : Prop :=
+  forall f o, ships f o = true -> on_form g f o = Some (wrap_scalar o).
 Lemma kernel_wraps :
   Forall wraps [k_taxa_wrap_insert; k_taxa_wrap_incorp; k_vrnt_wrap_insert; k_vrnt_wrap_incorp; k_trait_wrap_insert; k_trait_wrap_incorp].
 Proof.
-  repeat constructor; try (intros i; reflexivity); intros o H; destruct o; try reflexivity; exfalso; eapply H; reflexivity.
+  repeat constructor; intros f o H; destruct o, f as [| |[|[|nd]] [|]|]; try discriminate H; reflexivity.
 Qed.
-Lemma wraps_insert f c s k o v : wraps f -> op_insert c s k (f o) v = op_insert c s k o v.
-Proof. intros [W1 W2]. destruct o as [i| | |]; try (rewrite W2; [reflexivity|discriminate]). rewrite W1. symmetry. apply insert_scalar_as_list. Qed.
-Lemma wraps_incorp f c s k o v : wraps f -> op_incorp c s k (f o) v = op_incorp c s k o v.
-Proof. intros [W1 W2]. destruct o as [i| | |]; try (rewrite W2; [reflexivity|discriminate]). rewrite W1. symmetry. apply incorp_scalar_as_list. Qed.
-(** the model's insert/incorp (which never see a scalar handed to numpy.insert) are the source's: wrap, then insert *)
-Lemma kernel_insert_scalar c s k o v :
-  op_insert c s k (k_taxa_wrap_insert o) v = op_insert c s k o v /\ op_insert c s k (k_vrnt_wrap_insert o) v = op_insert c s k o v /\
-  op_insert c s k (k_trait_wrap_insert o) v = op_insert c s k o v /\ op_incorp c s k (k_taxa_wrap_incorp o) v = op_incorp c s k o v /\
-  op_incorp c s k (k_vrnt_wrap_incorp o) v = op_incorp c s k o v /\ op_incorp c s k (k_trait_wrap_incorp o) v = op_incorp c s k o v.
+(** numpy.insert as it is ([old_op_insert]) on a wrapped index is the model's insert on the index itself *)
+Lemma raw_insert_wrapped c s k o v : old_op_insert c s k (wrap_scalar o) v = op_insert c s k o v.
 Proof.
-  pose proof kernel_wraps as W. repeat (inversion W as [|? ? ?W0 W']; subst; clear W; rename W' into W).
+  assert (G : forall o', (forall d, scalar_free o' d) -> old_op_insert c s k o' v = op_insert c s k o' v).
+  { intros o' F. unfold old_op_insert, op_insert. now rewrite old_np_insert_t_general by apply F. }
+  destruct o as [i| | |]; cbn [wrap_scalar]; try (apply G; intros d; exact I).
+  rewrite G by (intros d; exact I). symmetry. apply insert_scalar_as_list.
+Qed.
+Lemma wraps_insert g c s k f o v : wraps g -> ships f o = true -> src_insert g c s k f o v = op_insert c s k o v.
+Proof. intros W H. unfold src_insert. rewrite (W f o H). apply raw_insert_wrapped. Qed.
+Lemma wraps_incorp g c s k f o v : wraps g -> ships f o = true -> src_incorp g c s k f o v = op_incorp c s k o v.
+Proof.
+  intros W H. unfold src_incorp. rewrite (W f o H). destruct o as [i| | |]; try reflexivity;
+  cbn [wrap_scalar]; symmetry; apply incorp_scalar_as_list.
+Qed.
+(** the model's insert/incorp (which never see a scalar handed to numpy.insert) are the source's: wrap under the generated
+    test, then numpy.insert as it is - for every form in which an index can arrive *)
+Lemma kernel_insert_scalar c s k f o v : ships f o = true ->
+  src_insert k_taxa_wrap_insert c s k f o v = op_insert c s k o v /\ src_insert k_vrnt_wrap_insert c s k f o v = op_insert c s k o v /\
+  src_insert k_trait_wrap_insert c s k f o v = op_insert c s k o v /\ src_incorp k_taxa_wrap_incorp c s k f o v = op_incorp c s k o v /\
+  src_incorp k_vrnt_wrap_incorp c s k f o v = op_incorp c s k o v /\ src_incorp k_trait_wrap_incorp c s k f o v = op_incorp c s k o v.
+Proof.
+  intros H. pose proof kernel_wraps as W. repeat (inversion W as [|? ? ?W0 W']; subst; clear W; rename W' into W).
   repeat split; (apply wraps_insert || apply wraps_incorp); assumption.
+Qed.
+(** every scalar form is shipped as [OInt] and every [OInt] has the three scalar forms: the hypothesis is met *)
+Lemma ships_scalar_forms i : ships FPyInt (OInt i) = true /\ ships FNpInt (OInt i) = true /\ ships (FArr 0 true) (OInt i) = true.
+Proof. repeat split. Qed.
+
+(** FORMER code (before the repair of C03-zero-dim-index-insert-moveaxis): the test `isinstance(obj, (int, numpy.integer))`
+    was right on every form but the 0-d integer array, which it let through to numpy.insert as a scalar *)
+Lemma old_wrap_other_forms f o : ships f o = true -> f <> FArr 0 true -> on_form old_wrap f o = Some (wrap_scalar o).
+Proof.
+  intros H N. destruct o, f as [| |[|[|nd]] [|]|]; try discriminate H; try reflexivity; exfalso; apply N; reflexivity.
+Qed.
+Lemma old_wrap_not_wraps : ~ wraps old_wrap.
+Proof. intros W. specialize (W (FArr 0 true) (OInt 1) eq_refl). discriminate W. Qed.
+(** regression witness: the 0-d index 1 on the variant axis (array axis 1) of the 2 x 3 witness matrix.  The current source
+    inserts the block as the index list [1] does; the former code inserted it transposed - same shape, same label arrays *)
+Lemma old_zero_dim_insert_witness :
+  ships (FArr 0 true) (OInt 1) = true /\
+  on_form k_vrnt_wrap_insert (FArr 0 true) (OInt 1) = Some (OList [1]) /\ on_form old_wrap (FArr 0 true) (OInt 1) = Some (OInt 1) /\
+  exists s1 s2, src_insert k_vrnt_wrap_insert cDenseTaxaVariantMatrix w1_s 1 (FArr 0 true) (OInt 1) w1_v = OK s1 /\
+                op_insert cDenseTaxaVariantMatrix w1_s 1 (OList [1]) w1_v = OK s1 /\
+                src_insert old_wrap cDenseTaxaVariantMatrix w1_s 1 (FArr 0 true) (OInt 1) w1_v = OK s2 /\
+                shape s1 = shape s2 /\ axes s1 = axes s2 /\ data s1 <> data s2 /\
+                data s1 = T2 [[0; 5; 6; 1; 2]; [10; 15; 16; 11; 12]] /\ data s2 = T2 [[0; 5; 15; 1; 2]; [10; 6; 16; 11; 12]].
+Proof.
+  split; [reflexivity|]. split; [reflexivity|]. split; [reflexivity|].
+  eexists. eexists. split; [vm_compute; reflexivity|]. split; [vm_compute; reflexivity|]. split; [vm_compute; reflexivity|].
+  split; [reflexivity|]. split; [reflexivity|]. split; [|split; vm_compute; reflexivity].
+  vm_compute. intros H. discriminate H.
 Qed.
 
 (** * masked genotyping protocols *)
